@@ -192,6 +192,30 @@ func c16cases(thorough bool) []c16case {
 			}
 		}
 	}
+	// ---- Delete: shapes of the original published / updated times (zone offsets, boundary instants, and
+	// legal xsd:dateTime spellings that Go's parser refuses and the library keeps verbatim) ----
+	for ti, ts := range []string{"2018-05-06T07:08:09+05:30", "2018-05-06T07:08:09-08:00", "0001-01-01T00:00:00Z", "9999-12-31T23:59:59Z", "2016-02-29T23:59:59Z",
+		"2016-12-31T23:59:60Z", "2016-12-31T23:59:59", "1970-01-01T00:00:00Z"} {
+		for _, member := range []string{"published", "updated", "both"} {
+			ts, member := ts, member
+			id := "https://l.example/n/dts"
+			stored := Doc("Note", id, "attributedTo", Alice, "content", "to be deleted")
+			tomb := map[string]interface{}{"type": "Tombstone", "id": id, "formerType": "Note", "deleted": "2021-03-04T05:06:07Z"}
+			for _, m := range []string{"published", "updated"} {
+				if member == m || member == "both" {
+					stored[m], tomb[m] = ts, ts
+				}
+			}
+			c := c16case{family: "delete", kind: ap.Both, want: "201", name: fmt.Sprintf("Delete timestamp-shape=%d %s", ti, member),
+				body: Doc("Delete", "", "actor", Alice, "object", id, "to", Carol)}
+			c.tweak = func(a *ap.App) {
+				a.Now = time.Date(2021, 3, 4, 5, 6, 7, 0, time.UTC)
+				a.PutDoc(stored)
+			}
+			c.model = func(r *Ref) { r.Store[id] = tomb }
+			cs = append(cs, c)
+		}
+	}
 	// ---- Add / Remove ----
 	x, y, z := "https://r1.example/n/x", "https://r1.example/n/y", "https://r1.example/n/z"
 	tOwnedC, tOwnedO, tForeign := "https://l.example/c/t1", "https://l.example/oc/t2", "https://r1.example/c/t3"
@@ -249,11 +273,17 @@ func c16cases(thorough bool) []c16case {
 		tOwnedC:  {Emb("Note", x, "content", "stored embedded x"), "https://r9.example/keep", x, Emb("Note", y)},
 		tOwnedO:  {M{"type": "Link", "href": y}, Emb("Note", x), Emb("Note", "https://r9.example/keep2"), x},
 		tForeign: {Emb("Note", x), y}, tLocalForeign: {Emb("Note", x), y, x}, tRemoteOwned: {Emb("Note", y), x}}
-	for _, typ := range []string{"Add", "Remove", "Remove/stored-embedded", "Add/stored-embedded"} {
+	for _, typ := range []string{"Add", "Remove", "Remove/stored-embedded", "Add/stored-embedded", "Add/pages", "Remove/pages"} {
 		contents := contents
 		if strings.HasSuffix(typ, "/stored-embedded") {
 			typ = strings.TrimSuffix(typ, "/stored-embedded")
 			contents = contentsEmb
+		}
+		// the owned targets stored as PAGES (CollectionPage / OrderedCollectionPage carry items too)
+		page := ""
+		if strings.HasSuffix(typ, "/pages") {
+			typ = strings.TrimSuffix(typ, "/pages")
+			page = "Page"
 		}
 		for _, ts := range tSeqs {
 			for _, os := range oSeqs {
@@ -270,14 +300,17 @@ func c16cases(thorough bool) []c16case {
 					if _, isStr := contents[tOwnedC][0].(string); !isStr {
 						storedAs = " stored-entries=embedded"
 					}
+					if page != "" {
+						storedAs += " stored-entries=targets-are-pages"
+					}
 					c := c16case{family: strings.ToLower(typ), kind: kind, want: "201", name: fmt.Sprintf("%s objects=%v targets=%v %s%s", typ, shortVals(os), shortIDs(ts), kind, storedAs),
 						body: Doc(typ, "", "actor", Alice, "object", val1(os), "target", val1(tl), "to", Carol)}
 					c.tweak = func(a *ap.App) {
-						a.PutDoc(Doc("Collection", tOwnedC, "items", L(contents[tOwnedC])))
-						a.PutDoc(Doc("OrderedCollection", tOwnedO, "orderedItems", L(contents[tOwnedO])))
+						a.PutDoc(Doc("Collection"+page, tOwnedC, "items", L(contents[tOwnedC])))
+						a.PutDoc(Doc("OrderedCollection"+page, tOwnedO, "orderedItems", L(contents[tOwnedO])))
 						a.PutDoc(Doc("Collection", tForeign, "items", L(contents[tForeign]))) // cached foreign copy
 						a.PutDoc(Doc("Collection", tLocalForeign, "items", L(contents[tLocalForeign])))
-						a.PutDoc(Doc("OrderedCollection", tRemoteOwned, "orderedItems", L(contents[tRemoteOwned])))
+						a.PutDoc(Doc("OrderedCollection"+page, tRemoteOwned, "orderedItems", L(contents[tRemoteOwned])))
 						a.NotOwned[tLocalForeign], a.OwnedExtra[tRemoteOwned] = true, true
 					}
 					c.model = func(r *Ref) {
@@ -401,7 +434,7 @@ func shortVals(l []interface{}) []string {
 func C16(tier string) int {
 	res := NewResult("C16", tier, "exploration")
 	cases := c16cases(res.Thorough())
-	res.Rule = fmt.Sprintf("Update: stored object with each subset of {name, content, summary, an unknown member} x update object assigning each member in {absent, new value, null}; two objects with every pair of independent assignments (81 x 81) and three-object triples; Delete: 1..%d objects of 3 types with/without published/updated, IRI/embedded, model clock; Add/Remove: every sequence of 1..%d objects (IRI/embedded) x every sequence of distinct targets over {owned Collection with duplicates, owned OrderedCollection with duplicates, foreign, a collection on the local host that another tenant owns, an owned collection on a foreign host}, the stored collections spelling their entries as IRIs or as a mixture of IRIs, embedded objects and a Link named by href; Like and Block with the same object sequences, Like also with its 'actor' naming another local actor / several actors / a remote actor / nobody (the ids go to the liked collection of the outbox's owner); each type with object/target absent or empty; Social-only and both protocols; every Like / Block and every third other request again with application hooks wrapped around the default callbacks; %d base requests; plus every ordered pair (and every triple over 12 of them; thorough: a third of all triples) of single-object Add / Remove / Like requests as a history on ONE application, the reference model applied step by step, and every ordered pair of Updates of one stored object; oracle: a reference model on JSON (merge + null deletion, Tombstone fields, collection edits on owned targets only, liked front insertion, Block undelivered, 400 and unchanged state for missing members)", map[bool]int{false: 2, true: 3}[res.Thorough()], map[bool]int{false: 2, true: 3}[res.Thorough()], len(cases))
+	res.Rule = fmt.Sprintf("Update: stored object with each subset of {name, content, summary, an unknown member} x update object assigning each member in {absent, new value, null}; two objects with every pair of independent assignments (81 x 81) and three-object triples; Delete: 1..%d objects of 3 types with/without published/updated, IRI/embedded, model clock, and 8 shapes of the original times (zone offsets, zero instant, year 9999, leap day, a leap second and a zone-less form that are kept verbatim); Add/Remove: every sequence of 1..%d objects (IRI/embedded) x every sequence of distinct targets over {owned Collection with duplicates, owned OrderedCollection with duplicates, foreign, a collection on the local host that another tenant owns, an owned collection on a foreign host}, the stored collections spelling their entries as IRIs or as a mixture of IRIs, embedded objects and a Link named by href, and the owned targets stored as CollectionPage / OrderedCollectionPage; Like and Block with the same object sequences, Like also with its 'actor' naming another local actor / several actors / a remote actor / nobody (the ids go to the liked collection of the outbox's owner); each type with object/target absent or empty; Social-only and both protocols; every Like / Block and every third other request again with application hooks wrapped around the default callbacks; %d base requests; plus every ordered pair (and every triple over 12 of them; thorough: a third of all triples) of single-object Add / Remove / Like requests as a history on ONE application, the reference model applied step by step, and every ordered pair of Updates of one stored object; oracle: a reference model on JSON (merge + null deletion, Tombstone fields, collection edits on owned targets only, liked front insertion, Block undelivered, 400 and unchanged state for missing members)", map[bool]int{false: 2, true: 3}[res.Thorough()], map[bool]int{false: 2, true: 3}[res.Thorough()], len(cases))
 	res.Assumptions = []string{"JSON nulls are looked for inside the activity's object (ActivityPub 6.3.1), which is what the statement's wording names", "the stored copy of the activity and the outbox entry are C05's",
 		"one collection named twice as target is excluded here (C09's known finding)"}
 	var mu sync.Mutex
